@@ -72,3 +72,30 @@ Lemma sample_history_ok :
   cwf w_big /\ hist_ok w_big sample_history = true /\
   snd (crun w_big sample_history) = [ROk; ROk; ROk; ROk; ROk; ROk; ROk; ROk; ROk; ROk; ROk; ROk].
 Proof. split; [reflexivity|]. split; vm_compute; reflexivity. Qed.
+
+(* ---- C09 ---- *)
+(* finding 20: a document's root (without comments / PIs around it) passes the "has neither parent nor siblings" test *)
+Lemma docroot_offer_not_refused :
+  is_doc_root (abs_world w_dns) 0 = true /\ snd (cstep fall w_dns (OAppend 1 [SNode 0])) = ROk.
+Proof. split; reflexivity. Qed.
+(* finding 21: offering an ancestor is not refused by delb; lxml raises ValueError after delb has begun *)
+Definition w_anc : cworld :=
+  {| w_docs := []; w_loose := [LEl (CEl 1 (KTag [] [97] []) None no_chain [(CEl 2 (KTag [] [98] []) None no_chain [], no_chain)])] |}.
+Lemma ancestor_offer_crashes : cwf w_anc /\ snd (cstep fall w_anc (OAddFollowing 2 [SNode 1])) = Crash EValueError.
+Proof. split; reflexivity. Qed.
+(* finding 22: a parentless text node asked to take a tag() definition as sibling: AttributeError, not a refusal *)
+Lemma loose_text_tagdef_crashes : snd (cstep fall w_big (OAddFollowing 12 [STag 30 [120]])) = Crash EAttributeError.
+Proof. reflexivity. Qed.
+(* refusals that do occur *)
+Lemma refusal_examples :
+  cwf w_big /\
+  cstep fall w_big (OAddFollowing 3 [SNode 9]) = (w_big, Rejected EInvalidOperation) /\    (* attached node offered *)
+  cstep fall w_big (ODetach 0 false) = (w_big, Rejected EInvalidOperation) /\              (* document root *)
+  cstep fall w_big (OReplace 0 (SStr 30 [120])) = (w_big, Rejected EInvalidOperation) /\   (* replacing a root *)
+  cstep fall w_big (ODetach 13 true) = (w_big, Rejected EInvalidOperation) /\              (* retain on parentless *)
+  cstep fall w_big (OAddFollowing 0 [SStr 30 [120]]) = (w_big, Rejected ETypeError) /\     (* text next to a root *)
+  cstep fall w_big (OAddFollowing 12 [SNode 13]) = (w_big, Rejected EInvalidOperation) /\  (* tag next to a parentless text *)
+  cstep fall w_big (OInsert 0 99%Z [SStr 30 [120]]) = (w_big, Rejected EIndexError) /\
+  cstep fall w_big (OInsert 0 (-1)%Z [SStr 30 [120]]) = (w_big, Rejected EValueError) /\
+  cstep fall w_big (OSetItem 0 99%Z (SStr 30 [120])) = (w_big, Rejected EIndexError).
+Proof. repeat split; reflexivity. Qed.
